@@ -28,6 +28,13 @@ Definition balance_report (s : bstate) (start end_ : option Z) : balance :=
   if range_bypass start end_ then s_bal s
   else bal_round (s_fmt s) (refold (s_txns s) start end_).
 
+(* Ledger::eval with `exchange: None` (also what `okane primitive eval` prints): the text is
+   parsed to a value expression (Model/ExprParse.v), evaluated, and required to be an amount.
+   Neither the balances nor the declared display precisions (s_fmt) of the processed ledger
+   are consulted: the value is handed back as computed, never rounded. *)
+Definition ledger_eval (s : bstate) (e : vexpr) : amount + eval_err :=
+  match eval_v e with inl v => ev_to_amount v | inr er => inr er end.
+
 (* Ledger::postings with account filter None / Some a, flattened in file order *)
 Definition all_postings (s : bstate) : list oposting := flat_map o_posts (s_txns s).
 Definition postings_of (s : bstate) (flt : option aid) : list oposting :=
